@@ -103,6 +103,12 @@ impl Area for FallArea {
                 let wellformed = if op == "with" || op == "rm" { unhex_list(arg).len() == names.len() } else { let m = parse_pairs(arg); m.len() == names.len() && names.iter().all(|n| m.iter().any(|kv| &kv.0 == n)) };
                 let want = if (op == "with" || op == "withmap") && wellformed { "ok" } else { "err" }; // removing from a fresh vector finds nothing: Err either way
                 if out != "panic" && out != want { fails.push(Failure { class: "invalid-input-accepted".into(), detail: format!("{} returned {}, expected {} (declared labels {:?})", line, out, want, names) }); } }
+            // ---- the same for bucket lists: valid exactly when the bounds (an empty list means the defaults; a trailing +Inf counts) are
+            // strictly increasing NUMBERS (-0.0 and 0.0 are the same number; NaN is none)
+            if p[1] == "buckets" { let b = f64_parse_list(p[2]);
+                let valid = b.iter().all(|x| !x.is_nan()) && b.windows(2).all(|w| w[0] < w[1]);
+                let want = if valid { "ok" } else { "err" };
+                if out != "panic" && out != want { fails.push(Failure { class: "invalid-input-accepted".into(), detail: format!("{} returned {}, expected {}", line, out, want) }); } }
             stats.hit(&format!("outcome:{}", out));
             if out == "panic" { fails.push(Failure { class: "panic".into(), detail: format!("a Result-returning API panicked: {}", line) }); }
             stats.seen(&[line.clone()], out == "err");
